@@ -1,0 +1,60 @@
+//go:build verif
+
+// Contracts for package channels (comment-only; compiled only with -tags verif).
+// Checked by /verif (contract-based deductive verification); see /verif/DESIGN.md.
+package channels
+
+// ---------------------------------------------------------------------------------------------
+// FSM layer. `step(s, E)` is the planner contract (DESIGN 2.6) instantiated with the transition
+// table and the action closures extracted from this package's init on every run; event
+// arguments are universally quantified. All lemmas quantify over every field value of s.
+
+//@ define [sameBooks]: (s, t) => t.Queued == s.Queued && t.Sent == s.Sent && t.Received == s.Received &&
+//@     t.QueuedBlocksTotal == s.QueuedBlocksTotal && t.SentBlocksTotal == s.SentBlocksTotal &&
+//@     t.ReceivedBlocksTotal == s.ReceivedBlocksTotal && t.InitiatorPaused == s.InitiatorPaused &&
+//@     t.ResponderPaused == s.ResponderPaused && t.DataLimit == s.DataLimit &&
+//@     t.RequiresFinalization == s.RequiresFinalization && seqEq(t.Vouchers, s.Vouchers) &&
+//@     seqEq(t.VoucherResults, s.VoucherResults)
+
+//@ define [sameIdentity]: (s, t) => t.SelfPeer == s.SelfPeer && t.TransferID == s.TransferID && t.Initiator == s.Initiator &&
+//@     t.Responder == s.Responder && t.BaseCid == s.BaseCid && t.Selector == s.Selector && t.Sender == s.Sender &&
+//@     t.Recipient == s.Recipient && t.TotalSize == s.TotalSize && t.Stages == s.Stages
+
+// C02 ------------------------------------------------------------------------------------------
+//@ lemma [final-set] {C02}: forall x Status :: isFinal(x) <==> (x == datatransfer.Completed || x == datatransfer.Failed || x == datatransfer.Cancelled)
+//@ lemma [absorbing] {C02}: foreach E in (*) :: forall s State ::
+//@     isFinal(s.Status) ==> !applied(s, E) && !entryRuns(s, E) && recEq(step(s, E), s)
+//@ lemma [identity-frozen] {C02,C10,C19}: foreach E in (*) :: forall s State :: sameIdentity(s, step(s, E))
+
+// C03 ------------------------------------------------------------------------------------------
+//@ lemma [bookkeeping-keeps-status] {C03}: foreach E in (DataReceived, DataReceivedProgress, DataSent, DataSentProgress,
+//@     DataQueued, DataQueuedProgress, SetDataLimit, SetRequiresFinalization, Disconnected, SendDataError, ReceiveDataError,
+//@     RequestCancelled, NewVoucher, NewVoucherResult, PauseInitiator, PauseResponder, DataLimitExceeded, ResumeInitiator,
+//@     Restart, Opened, CompleteCleanupOnRestart) :: forall s State :: step(s, E).Status == s.Status
+//@ lemma [resume-responder-status] {C03}: forall s State ::
+//@     step(s, ResumeResponder).Status == ((s.Status == datatransfer.Finalizing) ? datatransfer.Completing : s.Status)
+//@ lemma [lifecycle-keeps-books] {C03}: foreach E in (Open, Accept, TransferInitiated, Restart, Cancel, Opened, Error,
+//@     FinishTransfer, ResponderBeginsFinalization, ResponderCompletes, BeginFinalizing, Complete, CleanupComplete,
+//@     CompleteCleanupOnRestart, Disconnected, SendDataError, ReceiveDataError, RequestCancelled) ::
+//@     forall s State :: sameBooks(s, step(s, E))
+//@ lemma [diamond] {C03,C01}: forall s State ::
+//@     (s.Status == datatransfer.ResponderCompleted ==> step(s, FinishTransfer).Status == datatransfer.Completing) &&
+//@     (s.Status == datatransfer.TransferFinished ==> step(s, ResponderCompletes).Status == datatransfer.Completing) &&
+//@     (s.Status == datatransfer.ResponderFinalizingTransferFinished ==> step(s, ResponderCompletes).Status == datatransfer.Completing) &&
+//@     (s.Status == datatransfer.AwaitingAcceptance ==> step(s, FinishTransfer).Status == datatransfer.Completing) &&
+//@     (s.Status == datatransfer.Ongoing ==> step(s, FinishTransfer).Status == datatransfer.TransferFinished) &&
+//@     (s.Status == datatransfer.Ongoing ==> step(s, ResponderCompletes).Status == datatransfer.ResponderCompleted) &&
+//@     (s.Status == datatransfer.Ongoing ==> step(s, ResponderBeginsFinalization).Status == datatransfer.ResponderFinalizing) &&
+//@     (s.Status == datatransfer.ResponderFinalizing ==> step(s, FinishTransfer).Status == datatransfer.ResponderFinalizingTransferFinished) &&
+//@     (s.Status == datatransfer.TransferFinished ==> step(s, ResponderBeginsFinalization).Status == datatransfer.ResponderFinalizingTransferFinished) &&
+//@     (s.Status == datatransfer.Finalizing ==> step(s, ResumeResponder).Status == datatransfer.Completing)
+//@ lemma [completing-only-by-both] {C03,C01}: foreach E in (*) :: forall s State ::
+//@     s.Status != datatransfer.Completing && step(s, E).Status == datatransfer.Completing ==>
+//@        (E == FinishTransfer && (s.Status == datatransfer.ResponderCompleted || s.Status == datatransfer.AwaitingAcceptance)) ||
+//@        (E == ResponderCompletes && (s.Status == datatransfer.TransferFinished || s.Status == datatransfer.ResponderFinalizingTransferFinished)) ||
+//@        (E == ResumeResponder && s.Status == datatransfer.Finalizing) || E == Complete
+//@ lemma [paused-complete-does-not-complete] {C03}: forall s State ::
+//@     s.Status != datatransfer.Completing ==> step(s, ResponderBeginsFinalization).Status != datatransfer.Completing
+//@ lemma [finalizing-left-only-by] {C03}: foreach E in (*) except (ResumeResponder, Cancel, Error, Open, Complete, BeginFinalizing,
+//@     FinishTransfer, ResponderCompletes, ResponderBeginsFinalization) :: forall s State ::
+//@     s.Status == datatransfer.Finalizing ==> step(s, E).Status == datatransfer.Finalizing
